@@ -60,6 +60,37 @@ def drop_scratch(d):
         _SCRATCHES.remove(d)
 
 
+def inject_attrs(scratch):
+    """Insert the attribute lines of contracts/attrs.json above the named declarations (scratch copy only).
+    Returns a log [{file, decl, attr, applied}]. A declaration that is not found exactly once is skipped (and logged):
+    obligations that depend on it then time out and are reported undecided, never as violations."""
+    import json
+    import re
+    path = os.path.join(CONTRACTS, "attrs.json")
+    log = []
+    if not os.path.exists(path):
+        return log
+    with open(path) as f:
+        spec = json.load(f)
+    for a in spec.get("attrs", []):
+        fp = os.path.join(scratch, a["file"])
+        entry = {"file": a["file"], "decl": a["decl"], "attr": a["attr"], "applied": False}
+        try:
+            with open(fp) as f:
+                text = f.read()
+            m = list(re.finditer(r"^([ \t]*)" + re.escape(a["decl"]) + r"[ \t]*$", text, re.M))
+            if len(m) == 1:
+                ind = m[0].group(1)
+                text = text[:m[0].start()] + ind + a["attr"] + "\n" + text[m[0].start():]
+                with open(fp, "w") as f:
+                    f.write(text)
+                entry["applied"] = True
+        except OSError:
+            pass
+        log.append(entry)
+    return log
+
+
 def inject_kani_modules(scratch, contract_files=None):
     """Append each contracts/<file>.kani.rs to src/<file>.rs of the scratch copy.
     Returns a log: [{src, contract, src_sha256, missing}]"""
